@@ -98,7 +98,7 @@ let run_history toks =
     String.concat " ; " (List.rev !out)
   | _ -> failwith "bad history"
 let () =
-  let lines = read_lines Sys.argv.(1) in
+  let lines = read_lines Sys.argv.(Array.length Sys.argv - 1) in
   List.iteri (fun i l ->
       let r = try run_history (split_ws l) with Failure m -> "MODEL-ERROR " ^ m in
       print_string ("R " ^ string_of_int i ^ " " ^ r ^ "\n")) lines
